@@ -362,7 +362,7 @@ func c12(c *core.Ctx) {
 		}
 	})
 	c.Section("simultaneous-start-same-id", 8, func(i int64, _ *gen.Rand) {
-		targetedSimultaneousStartSameID(c, int(c.N(400, 20000)))
+		targetedSimultaneousStartSameID(c, int(c.N(4000, 40000)))
 		c.Distinct(uint64(i) | 27<<50)
 	})
 	c.Section("responses-during-retransmitting-tick", 4, func(i int64, _ *gen.Rand) {
